@@ -181,12 +181,97 @@ fn with_limits(ix: &crate::ix::Ix, a: u64, b: u64) -> crate::ix::Ix {
     i
 }
 
+impl C08m {
+    /// reposition_liquidity_v2 = withdraw everything from the old range (rounded down, subject to the minima),
+    /// deposit the new liquidity into the new range (rounded up, subject to the maxima), settle the difference.
+    fn reposition(&mut self, w: &mut World, obs: &Obs, acc: &mut Acc) {
+        let n = obs.ix.name;
+        let pk = obs.ix.key("whirlpool");
+        let Some(pool) = obs.pre.data(&pk).and_then(codec::Pool::decode) else { return };
+        if !plain_pool(&obs.pre, &pool) {
+            return;
+        }
+        let posk = obs.ix.key("position");
+        let (Some(pp), Some(np)) = (obs.pre.data(&posk).and_then(codec::Position::decode), w.bank.data(&posk).and_then(codec::Position::decode)) else { return };
+        let (ua, ub) = (obs.ix.key("token_owner_account_a"), obs.ix.key("token_owner_account_b"));
+        if ua == ub || obs.ix.data.len() < 65 || obs.ix.data[16] != 0 {
+            return;
+        }
+        let mut r = codec::Rd::new(&obs.ix.data, 17);
+        let (larg, min_a, min_b, max_a, max_b) = (r.u128(), r.u64(), r.u64(), r.u64(), r.u64());
+        let price_of = |t: i32| sqrt_price_from_tick_index(t);
+        let (wa, wb) = position_amounts(pool.tick_current_index, pool.sqrt_price, pp.tick_lower_index, pp.tick_upper_index, price_of(pp.tick_lower_index), price_of(pp.tick_upper_index), pp.liquidity, false);
+        let (da, db) = position_amounts(pool.tick_current_index, pool.sqrt_price, np.tick_lower_index, np.tick_upper_index, price_of(np.tick_lower_index), price_of(np.tick_upper_index), np.liquidity, true);
+        let big = |x: &BigUint| x.to_i128().unwrap_or(i128::MAX);
+        let du = (bal(&w.bank, &ua) as i128 - bal(&obs.pre, &ua) as i128, bal(&w.bank, &ub) as i128 - bal(&obs.pre, &ub) as i128);
+        let dv = (bal(&w.bank, &pool.token_vault_a) as i128 - bal(&obs.pre, &pool.token_vault_a) as i128, bal(&w.bank, &pool.token_vault_b) as i128 - bal(&obs.pre, &pool.token_vault_b) as i128);
+        let want = (big(&wa) - big(&da), big(&wb) - big(&db));
+        acc.count("reposition_checked");
+        let fail = |acc: &mut Acc, sig: &str, detail: String| {
+            acc.violation(format!("c08:{sig}:{n}"), detail, json!({"instruction": ix_brief(&obs.ix)}));
+        };
+        if np.liquidity != larg {
+            fail(acc, "liquidity_arg", format!("requested {larg} applied {}", np.liquidity));
+        }
+        if du != want || dv != (-want.0, -want.1) {
+            fail(acc, "reposition_amounts", format!("old range [{}, {}) L {} returns exactly ({wa}, {wb}), new range [{}, {}) L {} costs exactly ({da}, {db}): the owner should net {:?} but moved {:?}, vaults moved {:?}; tick {} price {}", pp.tick_lower_index, pp.tick_upper_index, pp.liquidity, np.tick_lower_index, np.tick_upper_index, np.liquidity, want, du, dv, pool.tick_current_index, pool.sqrt_price));
+        }
+        if big(&da) > max_a as i128 || big(&db) > max_b as i128 {
+            fail(acc, "token_max_ignored", format!("new range costs ({da}, {db}) above the maxima ({max_a}, {max_b}); the old range returned ({wa}, {wb})"));
+        }
+        if big(&wa) < min_a as i128 || big(&wb) < min_b as i128 {
+            fail(acc, "token_min_ignored", format!("old range returned ({wa}, {wb}) below the minima ({min_a}, {min_b})"));
+        }
+        let flow = |x: i128| if x > 0 { "to_owner" } else if x < 0 { "from_owner" } else { "none" };
+        acc.situation(format!("{n}:a_{}:b_{}:oldL{}:newL{}", flow(want.0), flow(want.1), (pp.liquidity > 0) as u8, (np.liquidity > 0) as u8));
+        // limit probes on clones of the pre-state: minima = what the old range returns, maxima = what the new one costs
+        if wa.bits() <= 64 && wb.bits() <= 64 && da.bits() <= 64 && db.bits() <= 64 && w.r.gen_range(0..2) == 0 {
+            let (wa, wb, da, db) = (wa.to_u64().unwrap(), wb.to_u64().unwrap(), da.to_u64().unwrap(), db.to_u64().unwrap());
+            let with = |mins: (u64, u64), maxs: (u64, u64)| {
+                let mut i = obs.ix.clone();
+                i.data[33..41].copy_from_slice(&mins.0.to_le_bytes());
+                i.data[41..49].copy_from_slice(&mins.1.to_le_bytes());
+                i.data[49..57].copy_from_slice(&maxs.0.to_le_bytes());
+                i.data[57..65].copy_from_slice(&maxs.1.to_le_bytes());
+                i
+            };
+            let canon = w.bank.clone();
+            acc.count("reposition_probe_sets");
+            let probes: Vec<(&str, Option<(u64, u64)>, Option<(u64, u64)>, bool)> = vec![
+                ("exact", Some((wa, wb)), Some((da, db)), true),
+                ("max_a_minus_1", Some((wa, wb)), da.checked_sub(1).map(|x| (x, db)), false),
+                ("max_b_minus_1", Some((wa, wb)), db.checked_sub(1).map(|x| (da, x)), false),
+                ("min_a_plus_1", wa.checked_add(1).map(|x| (x, wb)), Some((da, db)), false),
+                ("min_b_plus_1", wb.checked_add(1).map(|x| (wa, x)), Some((da, db)), false),
+            ];
+            for (what, mins, maxs, must_ok) in probes {
+                let (Some(mins), Some(maxs)) = (mins, maxs) else { continue };
+                let (o, b2) = w.simulate(&obs.pre, &with(mins, maxs));
+                acc.count("reposition_limit_probes");
+                if must_ok {
+                    if !o.ok() {
+                        fail(acc, "limit_rejected_wrongly", format!("probe {what}: minima {mins:?} = what the old range returns, maxima {maxs:?} = what the new range costs: failed with {:?}", o.err));
+                    } else if !crate::world::diff_on(&obs.ix, &b2, &canon).is_empty() {
+                        fail(acc, "limit_changed_outcome", format!("probe {what}: limits changed the end state"));
+                    }
+                } else if o.ok() {
+                    fail(acc, "limit_not_enforced", format!("probe {what}: old range returns ({wa}, {wb}), new range costs ({da}, {db}), minima {mins:?} maxima {maxs:?}: succeeded (net flow A {}, B {})", flow(want.0), flow(want.1)));
+                }
+            }
+        }
+    }
+}
+
 impl Monitor for C08m {
     fn after(&mut self, w: &mut World, obs: &Obs, acc: &mut Acc) {
         let n = obs.ix.name;
         let inc = n == "increase_liquidity" || n == "increase_liquidity_v2";
         let dec = n == "decrease_liquidity" || n == "decrease_liquidity_v2";
         let by_amounts = n == "increase_liquidity_by_token_amounts_v2";
+        if n == "reposition_liquidity_v2" && obs.ok() {
+            self.reposition(w, obs, acc);
+            return;
+        }
         if !(inc || dec || by_amounts) || !obs.ok() {
             return;
         }
@@ -272,7 +357,7 @@ impl Monitor for C08m {
 
 pub fn run(tier: Tier, seed: u64) -> i32 {
     let mut rep = Report::new("C08", tier, seed);
-    rep.rule = "function level: Anchor calculate_liquidity_token_deltas and Pinocchio pino_calculate_liquidity_token_deltas (position bytes written by the harness's own encoder) on generated (tick_current, sqrt_price, range, +-L) incl. price exactly on a bound and the shifted-tick state, all spacings: Ok results must equal exact ceil (deposit) / floor (withdraw) amounts, A only below, B only above, both implementations equal, deposit-then-withdraw loses 0..1 per token; estimate_max_liquidity_from_token_amounts: cost(L) fits both maxima and cost(L+1) does not. instruction level (history workload, plain pools): balance deltas of every increase/decrease/by-amounts equal the exact amounts, by-amounts liquidity is maximal, token_max/token_min probes (x-1,x,x+1) on clones. distinct = (kind, price class, sign, liquidity magnitude, spacing)".into();
+    rep.rule = "function level: Anchor calculate_liquidity_token_deltas and Pinocchio pino_calculate_liquidity_token_deltas (position bytes written by the harness's own encoder) on generated (tick_current, sqrt_price, range, +-L) incl. price exactly on a bound and the shifted-tick state, all spacings: Ok results must equal exact ceil (deposit) / floor (withdraw) amounts, A only below, B only above, both implementations equal, deposit-then-withdraw loses 0..1 per token; estimate_max_liquidity_from_token_amounts: cost(L) fits both maxima and cost(L+1) does not. instruction level (history workload, plain pools): balance deltas of every increase/decrease/by-amounts equal the exact amounts, by-amounts liquidity is maximal, token_max/token_min probes (x-1,x,x+1) on clones; reposition_liquidity_v2 nets exactly floor(old range) - ceil(new range) per token whichever way the difference flows, and its minima (old range) / maxima (new range) are probed at the exact values and one unit inside. distinct = (kind, price class, sign, liquidity magnitude, spacing)".into();
     rep.assumptions = vec!["tick prices are the program's own sqrt_price_from_tick_index (decided by C09)".into(), "errors are unconstrained except that both implementations must agree".into()];
     let n = tier.pick(12_000_000, 300_000_000);
     let mut acc = function_level(seed, n);
@@ -280,7 +365,7 @@ pub fn run(tier: Tier, seed: u64) -> i32 {
     let acc2 = run_histories(
         seed ^ 0x88,
         per_shard,
-        move |_r| HistCfg { ops: 120, w_swap: 30, w_liq: 55, w_fees: 5, w_lifecycle: 5, w_clock: 2, w_setters: 1, ..Default::default() },
+        move |_r| HistCfg { ops: 120, lifecycle_ext: true, w_swap: 30, w_liq: 50, w_fees: 5, w_lifecycle: 10, w_clock: 2, w_setters: 1, ..Default::default() },
         || vec![Box::new(C08m) as Box<dyn Monitor>],
     );
     acc.merge(acc2);
@@ -291,5 +376,7 @@ pub fn run(tier: Tier, seed: u64) -> i32 {
     rep.floor("liquidity_ix_checked", 3000);
     rep.floor("by_amounts_checked", 100);
     rep.floor("limit_probes", 1000);
+    rep.floor("reposition_checked", 100);
+    rep.floor("reposition_limit_probes", 150);
     rep.finish()
 }
